@@ -4,6 +4,7 @@
 f22_0:
   ret
   call f16_1
+  mov wvsv1(%rip),%rax
   ret
 .section .text.f22_1,"ax",@progbits
 .globl f22_1
@@ -20,6 +21,7 @@ f22_2:
   ret
   call f12_2
   call f7_0
+  mov wvsv1(%rip),%rax
   ret
 .section .text.f22_3,"ax",@progbits
 .globl f22_3
@@ -28,6 +30,7 @@ f22_3:
   ret
   call f12_0
   lea d_f22_3(%rip),%rax
+  mov wvsv1(%rip),%rax
   ret
 .section .data.d_f22_3,"aw",@progbits
 .globl d_f22_3
